@@ -134,7 +134,7 @@ PROPS = {
  'C04': {
   'level_text': 'Coq theorems (closed under the global context; PARTIAL with respect to the full statement, which is kept visible in Props/C04.v): in every state of the stream-machine model and for every '
                 'inflater, a 4-byte field cut after 1-3 bytes is accumulated silently and parsed by the same parse_u32 call as when it arrives whole; a chunk body delivered as p then q leaves exactly the '
-                'state p++q leaves; zero-byte transitions ignore the buffer. The composition over whole streams (and the image-data state, which needs the inflater\'s prefix-monotonicity) is decided on '
+                'state p++q leaves; compressed image data delivered as p then q leaves the state and the appended image bytes of p++q (premise: the external inflater never retracts output); zero-byte transitions ignore the buffer. The composition over whole streams (and the image-data state, which needs the inflater\'s prefix-monotonicity) is decided on '
                 'every run by the metamorphic check on the implementation (whole vs byte-by-byte vs every single cut point vs random schedules, at StreamingDecoder and Reader level) and model traces.',
   'level_note': 'Trusted: Coq kernel; hand model of stream.rs tied by differential execution. The trace-level theorem feed(p1) = feed(p2) is NOT proved (stated in Props/C04.v); its composition step is measured, '
                 'not proved. fdeflate streaming behaviour by contract.',
